@@ -151,9 +151,10 @@ package mocks
 //@   returns err
 //@   callsite ErrorReporter.Errorf: effect pc.reported == old(pc.reported) + 1
 //@   callsite ErrorReporter.Errorf: modifies pc.reported
-//@   callsite ErrorReporter.Errorf#1: requires[errors_reported_only_if_expected_drained] pc.errorsShouldBeDrained
-//@   callsite ErrorReporter.Errorf#2: requires[messages_reported_only_if_expected_drained] pc.messagesShouldBeDrained
+//@   callsite ErrorReporter.Errorf#1: requires[errors_reported_only_if_expected_drained] pc.errorsShouldBeDrained && len(pc.errors) > 0
+//@   callsite ErrorReporter.Errorf#2: requires[messages_reported_only_if_expected_drained] pc.messagesShouldBeDrained && len(pc.messages) > 0
 //@   ensures[never_started_reported] !old(pc.consumed) ==> err == errPartitionConsumerNotStarted && pc.reported == old(pc.reported) + 1
+//@   ensures[undrained_errors_reported] old(pc.consumed) && pc.errorsShouldBeDrained && old(len(pc.errors)) > 0 ==> pc.reported >= old(pc.reported) + 1
 //@   ensures[started_and_nothing_expected_is_quiet] old(pc.consumed) && !pc.errorsShouldBeDrained && !pc.messagesShouldBeDrained ==> pc.reported == old(pc.reported)
 //@   nosafety
 
